@@ -639,3 +639,10 @@ def _pl(pred="n < self.size"):
     return f"""        for n in (first_bit..=last_bit).take_while(|&n| {pred}) {{"""
 m("x7-take-while-le-size", "C09", AB, _PL_ORIG, _pl("n <= self.size"), "R9.1.guard")
 m("x7-take-while-word-capacity", "C09", AB, _PL_ORIG, _pl("n < self.map.len() * 64"), "R9.1.guard")
+
+# found by an automated sweep (negate every branch condition, run all 20 checks): silent before, reported now
+XN = "src/mmap/xen.rs"
+m("x8-sweep-word-size-test-negated", "C06", VM, "        if size_of::<usize>() > 4 {\n            copy_aligned_slice(8);", "        if !(size_of::<usize>() > 4) {\n            copy_aligned_slice(8);", "R6.4.descending_widths")
+m("x8-sweep-word-size-test-ge-16", "C06", VM, "        if size_of::<usize>() > 4 {\n            copy_aligned_slice(8);", "        if size_of::<usize>() >= 16 {\n            copy_aligned_slice(8);", "R6.4.descending_widths")
+m("x8-sweep-xen-default-prot-overrides", "C15", XN, "        if range.prot.is_none() {", "        if !(range.prot.is_none()) {", "R15.3.xen_default_only_when_none")
+m("x8-sweep-xen-default-flags-always", "C15", XN, "            None => range.flags = Some(libc::MAP_NORESERVE | libc::MAP_SHARED),\n        }", "            None => {}\n        }\n        range.flags = Some(libc::MAP_NORESERVE | libc::MAP_SHARED);", "R15.3.xen_default_only_when_none")
